@@ -22,6 +22,7 @@ impl ScopeFieldType {
 //@ type src/variable_versions/v9.rs - OptionsTemplate
 //@ type src/variable_versions/v9.rs - TemplateField
 //@ type src/variable_versions/v9.rs - OptionsTemplateScopeField
+//@ type src/variable_versions/v9.rs - Templates
 }
 //@ layout v9
 verus! {
@@ -38,7 +39,7 @@ proof fn lemma_sf_shift(b: Seq<u8>, o: int) requires 0 <= o, o + 4 <= b.len() en
 /// a template record: id, field count n, then exactly n field specifiers
 pub open spec fn template_post<'a>(b: &'a [u8], r: IResult<&'a [u8], Template>) -> bool {
     if b@.len() < 4 || b@.len() < 4 + 4 * (be16(b@, 2) as int) {
-        r is Err
+        r is Err && r->Err_0 is Error
     } else {
         let n = be16(b@, 2) as int;
         &&& r is Ok
@@ -69,6 +70,94 @@ pub open spec fn options_template_post<'a>(b: &'a [u8], r: IResult<&'a [u8], Opt
 //@ include count_fixed_lemma.rs NAME=tf T=TemplateField F=TemplateField::parse W=4 DEC=tf_dec
 //@ include count_fixed_lemma.rs NAME=sf T=OptionsTemplateScopeField F=OptionsTemplateScopeField::parse W=4 DEC=sf_dec
 verus! {
+
+// ---- a template flowset body: template records one after the other, the rest is padding (RFC 3954 5.2)
+/// size of the template record at offset o (4 + 4 * field_count), None if it does not fit
+pub open spec fn tpl_size(b: Seq<u8>, o: int) -> Option<int> {
+    if o < 0 || o + 4 > b.len() { None } else if o + 4 + 4 * (be16(b, o + 2) as int) > b.len() { None }
+    else { Some(4 + 4 * (be16(b, o + 2) as int)) }
+}
+/// t is the template record found at offset o of b
+pub open spec fn tpl_matches(t: Template, b: Seq<u8>, o: int) -> bool {
+    &&& t.template_id == be16(b, o) && t.field_count == be16(b, o + 2)
+    &&& t.fields@.len() == be16(b, o + 2) as int
+    &&& forall|k: int| 0 <= k < t.fields@.len() ==> #[trigger] t.fields@[k] == tf_dec(b, o + 4 + 4 * k)
+}
+/// ts are the records found back to back from offset o
+pub open spec fn tpls_match(ts: Seq<Template>, b: Seq<u8>, o: int) -> bool decreases ts.len() {
+    ts.len() == 0 || (tpl_size(b, o) is Some && tpl_matches(ts[0], b, o) && tpls_match(ts.drop_first(), b, o + tpl_size(b, o)->0))
+}
+pub open spec fn tpls_walk(b: Seq<u8>, o: int, k: int) -> Option<int> decreases k {
+    if k <= 0 { Some(o) } else { match tpl_size(b, o) { None => None, Some(w) => tpls_walk(b, o + w, k - 1) } }
+}
+/// number of records that fit back to back from o, and where they end (what the decoder consumes as templates)
+pub open spec fn tpls_count(b: Seq<u8>, o: int) -> int decreases b.len() - o {
+    match tpl_size(b, o) { None => 0, Some(w) => 1 + tpls_count(b, o + w) }
+}
+pub open spec fn tpls_end(b: Seq<u8>, o: int) -> int decreases b.len() - o {
+    match tpl_size(b, o) { None => o, Some(w) => tpls_end(b, o + w) }
+}
+proof fn lemma_template_at<'a>(b: Seq<u8>, o: int, i: &'a [u8], r: IResult<&'a [u8], Template>)
+    requires 0 <= o <= b.len(), i@ == b.subrange(o, b.len() as int), template_post(i, r),
+    ensures
+        tpl_size(b, o) is None ==> r is Err && r->Err_0 is Error,
+        tpl_size(b, o) is Some ==> r is Ok && r->Ok_0.0@ == b.subrange(o + tpl_size(b, o)->0, b.len() as int) && tpl_matches(r->Ok_0.1, b, o),
+{
+    if i@.len() >= 4 {
+        assert(be16(i@, 0) == be16(b, o) && be16(i@, 2) == be16(b, o + 2));
+        let n = be16(b, o + 2) as int;
+        if i@.len() >= 4 + 4 * n {
+            lemma_sub_sub2(b, o, b.len() as int, 4 + 4 * n, b.len() - o);
+            let t = r->Ok_0.1;
+            assert forall|k: int| 0 <= k < t.fields@.len() implies #[trigger] t.fields@[k] == tf_dec(b, o + 4 + 4 * k) by {
+                assert(t.fields@[k] == tf_dec(i@, 4 + 4 * k));
+            }
+        }
+    }
+}
+proof fn lemma_tpls_many<'a, F: Fn(&'a [u8]) -> IResult<&'a [u8], Template>>(h: F, b: Seq<u8>, o: int, k: int, ins: Seq<&'a [u8]>, vals: Seq<Template>)
+    requires
+        forall|i: &'a [u8], r: IResult<&'a [u8], Template>| #[trigger] h.ensures((i,), r) ==> template_post(i, r),
+        0 <= k, 0 <= o <= b.len(),
+        nom_c::count_ok(h, k, ins, vals), ins[0]@ == b.subrange(o, b.len() as int),
+    ensures
+        tpls_walk(b, o, k) is Some, o <= tpls_walk(b, o, k)->0 <= b.len(),
+        ins[k]@ == b.subrange(tpls_walk(b, o, k)->0, b.len() as int),
+        tpls_match(vals, b, o),
+    decreases k,
+{
+    if k > 0 {
+        assert(h.ensures((ins[0],), Ok((ins[1], vals[0]))));
+        lemma_template_at(b, o, ins[0], Ok((ins[1], vals[0])));
+        let w = tpl_size(b, o)->0;
+        let ins1 = ins.drop_first();
+        let vals1 = vals.drop_first();
+        assert(nom_c::count_ok(h, k - 1, ins1, vals1)) by {
+            assert forall|j: int| 0 <= j < k - 1 implies h.ensures((#[trigger] ins1[j],), Ok((ins1[j + 1], vals1[j]))) by {
+                assert(ins1[j] == ins[j + 1]);
+                assert(h.ensures((ins[j + 1],), Ok((ins[j + 2], vals[j + 1]))));
+            }
+        }
+        lemma_tpls_many(h, b, o + w, k - 1, ins1, vals1);
+        assert(ins1[k - 1] == ins[k]);
+    }
+}
+proof fn lemma_tpls_walk_is_greedy(b: Seq<u8>, o: int, k: int)
+    requires 0 <= k, 0 <= o <= b.len(), tpls_walk(b, o, k) is Some, tpl_size(b, tpls_walk(b, o, k)->0) is None,
+    ensures tpls_count(b, o) == k, tpls_end(b, o) == tpls_walk(b, o, k)->0,
+    decreases k,
+{
+    if k > 0 { lemma_tpls_walk_is_greedy(b, o + tpl_size(b, o)->0, k - 1); }
+}
+/// C04 for a template flowset body: every record that fits is reported, in order, with the id, count, field types
+/// and lengths that were sent; the bytes after the last complete record are padding; nothing is left over
+pub open spec fn templates_post<'a>(b: &'a [u8], r: IResult<&'a [u8], Templates>) -> bool {
+    &&& r is Ok
+    &&& r->Ok_0.0@.len() == 0
+    &&& r->Ok_0.1.templates@.len() == tpls_count(b@, 0)
+    &&& tpls_match(r->Ok_0.1.templates@, b@, 0)
+    &&& r->Ok_0.1.padding@ == b@.subrange(tpls_end(b@, 0), b@.len() as int)
+}
 
 impl Header {
 //@ fn expanded variable_versions::v9 /impl<'nom> nom_derive::Parse<.*> for Header/ parse_be
@@ -170,5 +259,36 @@ impl OptionsTemplate {
 //@ end
 }
 
+impl Templates {
+//@ fn expanded variable_versions::v9 /impl<'nom> nom_derive::Parse<.*> for Templates/ parse_be
+//@   result: r
+//@   generics: <'nom>
+//@   prerules: R13 R14
+//@   rules: R7
+//@   ensures: templates_post(orig_i, r)
+//@   before "let (i, templates) =": let ghost b = orig_i@; let ghost i2 = i; proof {
+//@       assert(i@ =~= b.subrange(0, b.len() as int));
+//@       assert forall|ii: &'nom [u8], rr: IResult<&'nom [u8], Template>| #[trigger] __m0_templates.ensures((ii,), rr) implies template_post(ii, rr) by {
+//@           let r1 = choose|r1: IResult<&'nom [u8], Template>| call_ensures(Template::parse_be, (ii,), r1) && (r1 is Ok ==> rr == r1)
+//@                     && (r1 is Err ==> rr is Err && !(rr->Err_0 is Incomplete) && (r1->Err_0 is Failure <==> rr->Err_0 is Failure));
+//@       }
+//@       assert forall|k: int, ins: Seq<&'nom [u8]>, vals: Seq<Template>|
+//@           0 <= k && #[trigger] nom_c::count_ok(__m0_templates, k, ins, vals) && ins[0] == i
+//@           implies tpls_walk(b, 0, k) is Some && 0 <= tpls_walk(b, 0, k)->0 <= b.len()
+//@                   && ins[k]@ == b.subrange(tpls_walk(b, 0, k)->0, b.len() as int) && tpls_match(vals, b, 0)
+//@           by { lemma_tpls_many(__m0_templates, b, 0, k, ins, vals); }
+//@   }
+//@   after "nom::multi::many0(__m0_templates)(i)?;": proof {
+//@       let (ins, k, e) = choose|ins: Seq<&'nom [u8]>, k: int, e: nom::Err<nom::error::Error<&'nom [u8]>>|
+//@           0 <= k && #[trigger] nom_c::count_ok(__m0_templates, k, ins, templates@) && ins[0] == i2 && ins[k] == i
+//@           && #[trigger] __m0_templates.ensures((ins[k],), Err(e)) && e is Error
+//@           && forall|j: int| 0 <= j < k ==> (#[trigger] ins[j + 1])@.len() != ins[j]@.len();
+//@       let end = tpls_walk(b, 0, k)->0;
+//@       assert(template_post(ins[k], Err(e)));
+//@       lemma_template_at(b, end, ins[k], Err(e));
+//@       lemma_tpls_walk_is_greedy(b, 0, k);
+//@   }
+//@ end
+}
 } // verus!
 fn main() {}
